@@ -15,7 +15,10 @@ def the_grid(tier):
         tg = [t for t in nvar.toggles("quick") if t[0] != "t_itempos"] + [t for t in c06.EXTRA if t[0] != "t_glpos"]
         base = c06.BASE
         if tier == "quick":
-            base = [("b_host", c06.B_HOST), ("b_path", ["", "/P/Q.html"]), ("b_query", [0, 1, 3])]
+            base = [("b_host", ["a.com", "télérama.fr", "facebook.com"]), ("b_path", ["", "/P/Q.html", "/a%2fb%20c"]), ("b_query", [0, 1, 3]),
+                    ("b_frag", ["", "/home/inbox"])]
+        if tier == "deep":
+            base = [("b_host", ["a.com", "facebook.com"]), ("b_path", ["", "/a%2fb%20c"]), ("b_query", [0, 3]), ("b_frag", ["", "/home/inbox"])]
         GRIDS[tier] = grid.Grid("hierarchy-universe", tg, free=base)
     return GRIDS[tier]
 
@@ -218,26 +221,30 @@ def run(chk):
         "URL; collision classes: URLs grouped by canonical form must share the normalized form, URLs grouped by normalized form must "
         "share the fingerprint." % d
     )
-    _CG = g
-    tasks = g.tasks(d, 6000)
+    plan = [(g, 2)] if quick else [(g, 2), (the_grid("deep"), 3)]
     c2n = [dict() for _ in VECTORS]
     n2f = [dict() for _ in VECTORS]
     members = n1 = changed = 0
     minimal, counts, outs = {}, {}, set()
-    for nc, n, ch, a, b, mins, cnt, o in core.pmap(_class_task, tasks, chk.seed):
-        n1 += nc
-        members += n
-        changed += ch
-        outs |= o
-        for m in mins:
-            minimal.setdefault((m[0], core.canon_json(m[1])), m)
-        for c, k in cnt.items():
-            counts[c] = counts.get(c, 0) + k
-        for vi in range(len(VECTORS)):
-            _merge(c2n[vi], a[vi])
-            _merge(n2f[vi], b[vi])
-    if n1 != g.size(d):
-        raise core.Harness("enumerated %d cases, expected %d" % (n1, g.size(d)))
+    expected_total = 0
+    for gg, dd in plan:
+        _CG = gg
+        expected_total += gg.size(dd)
+        for nc, n, ch, a, b, mins, cnt, o in core.pmap(_class_task, gg.tasks(dd, 6000), chk.seed):
+            n1 += nc
+            members += n
+            changed += ch
+            outs |= o
+            for m in mins:
+                minimal.setdefault((m[0], core.canon_json(m[1])), m)
+            for c, k in cnt.items():
+                counts[c] = counts.get(c, 0) + k
+            for vi in range(len(VECTORS)):
+                _merge(c2n[vi], a[vi])
+                _merge(n2f[vi], b[vi])
+    d = plan[-1][1]
+    if n1 != expected_total:
+        raise core.Harness("enumerated %d cases, expected %d" % (n1, expected_total))
     core.report_minimal(chk, list(minimal.values()), counts)
     chk.add("states", n1)
     chk.add("traces_validated_against_impl", n1)
